@@ -42,6 +42,15 @@ def run(tier):
                    san="rec", timeout=7000)
     v.absorb(r, "calendar-edge")
     tot["calendar.epoch_seconds"] = r.counters.get("c06.epoch_seconds", 0)
+    if not q:
+        # uninitialised reads are invisible to ASan/UBSan (and MSan cannot be used: libstdc++ is not instrumented):
+        # a small slice of the same workloads under valgrind memcheck
+        vg = build(drv, "vg")
+        for mode, extra in (("hostile", ["--random", 3000]), ("sequences", ["--len", 2, "--zones", 2]), ("shared", ["--steps", 3000, "--noshadow"]),
+                            ("managers", ["--steps", 3000, "--noshadow"])):
+            r = run_shards(vg, [base + ["--mode", mode, "--shard", "%d/%d" % (400 + i, N)] + extra for i in range(N)], valgrind=True, timeout=7000)
+            v.absorb(r, "valgrind:" + mode)
+            tot["valgrind.%s.steps" % mode] = sum(n for k, n in r.counters.items() if k.startswith("hist."))
     if os.environ.get(vlib.GUARD) != "1":
         v.inconclusive_because("hook guard off: basic cache overflow not observable")
     if tot.get("hist.buffer_year_fills", 0) < 387 * 3 * 52 or tot.get("hist.basic_hook_zones", 0) < 268 or \
